@@ -9,7 +9,7 @@ import functools
 import itertools
 import sys
 
-from .. import celrun, outcome, runner
+from .. import celrun, outcome, repo, runner
 
 LEVEL = "exploration"
 
@@ -303,18 +303,75 @@ def shard(task):
     return part
 
 
+# ---- two programs in one process: the second program's host function must be the one IT was given ----------------
+# (whatever an earlier program -- built with another kind of callable that may carry the same module / qualified name,
+# e.g. the very function a functools.wraps wrapper wraps -- left behind in the process)
+H_SHAPES = [("f(a)", "call1"), ("a.f(b)", "meth1"), ("[1, 2].map(v, f(v))", "map")]
+H_FIRST = KINDS + ["wrapped-itself"]
+
+
+def hist_shard(rk):
+    from ..explore import procstate
+    part = runner.Part()
+    repo.memoise_lark()
+    snap = procstate.snapshot()
+    n = 0
+    left = set()
+    for k1, k2, style, (text, shape) in itertools.product(H_FIRST, KINDS, STYLES, H_SHAPES):
+        if style == "list" and (k2 in ("lambda", "partial") or k1 in ("lambda", "partial")):
+            continue
+        left.update(procstate.restore(snap))
+        BEHAVIOUR[0] = "value"
+        fn1 = undecorated if k1 == "wrapped-itself" else make_callable(k1)
+        celrun.Prog(rk, "f(a)", functions={"f": fn1} if style == "dict" else ({"f": fn1} if k1 == "wrapped-itself" else [fn1])).eval(bindings("call1"))
+        fn2 = make_callable(k2)
+        del LOG[:]
+        o = celrun.Prog(rk, text, functions={"f": fn2} if style == "dict" else [fn2]).eval(bindings(shape))
+        log = list(LOG)
+        exp_o, exp_log = expected(shape, "value")
+        n += 1
+        part.case()
+        part.outcome("two-programs:" + outcome.label(o))
+        got = "E" if o[0] == "E" else ((o[1], o[2]) if o[0] == "V" else ("X",) + tuple(o[1:]))
+        probs = [] if got != exp_o else check_log(log, exp_log)
+        if got != exp_o or probs:
+            part.violation("second-program-host-function", f"{rk}:{style}:two-programs:{k1}-then-{k2}:{shape}:{'outcome' if got != exp_o else 'call-log'}",
+                           {"runner": rk, "history": True, "first_kind": k1, "kind": k2, "style": style, "expr": text, "shape": shape},
+                           f"runner {rk}: after a program whose f was supplied as {k1}, {text!r} with f supplied as {style}/{k2}: expected {exp_o}, got {outcome.short(o)}; calls logged {log} {probs}")
+    part.space(f"two-program histories:{rk}", n, n)
+    for name in sorted(left):
+        part.extra[f"left_behind:{name}"] += 1
+    return part
+
+
 def run(ctx):
     for rk in ("I", "C"):
         ctx.run_shards(shard, [rk])
+    for rk in ("I", "C"):
+        ctx.run_shards(hist_shard, [rk])
     ctx.part.sample({"shapes": [s for s, _ in SHAPES], "styles": STYLES, "callable_kinds": KINDS, "behaviours": BEHAVIOURS})
     ctx.rule = ("every call shape (0-3 arguments, function and method form, nested, in +, in map, beside || / &&, in ?:, in the range of each macro, beside a variable or macro variable of the same name) x supplying style (dict, list) x callable kind (module-level def, def in __main__, closure, lambda, "
-                "callable object, functools.partial, bound method, functools.wraps wrapper of another function, function defined by exec in a namespace that is no module) x behaviour (value, returned CELEvalError, raised ValueError / TypeError / CELEvalError / KeyError) x runner; plus built-in override scope in every program order and unbound names; "
+                "callable object, functools.partial, bound method, functools.wraps wrapper of another function, function defined by exec in a namespace that is no module) x behaviour (value, returned CELEvalError, raised ValueError / TypeError / CELEvalError / KeyError) x runner; plus built-in override scope in every program order and unbound names; plus two-program histories: a program whose f is any kind of callable (or the very function the wraps-wrapper wraps) followed, from the pristine process state, by a program with every other kind, judged by outcome and call log; "
                 "a case is one program evaluation whose outcome AND call log are compared; `int || false` is counted, not compared")
     ctx.assumptions = ["arguments are small ints; evaluation order between sibling call sites is not asserted (counts only)"]
 
 
 def replay(w):
     wit = w["witness"]
+    if wit.get("history"):
+        BEHAVIOUR[0] = "value"
+        k1, style = wit["first_kind"], wit["style"]
+        fn1 = undecorated if k1 == "wrapped-itself" else make_callable(k1)
+        celrun.Prog(wit["runner"], "f(a)", functions={"f": fn1} if (style == "dict" or k1 == "wrapped-itself") else [fn1]).eval(bindings("call1"))
+        fn2 = make_callable(wit["kind"])
+        del LOG[:]
+        o = celrun.Prog(wit["runner"], wit["expr"], functions={"f": fn2} if style == "dict" else [fn2]).eval(bindings(wit["shape"]))
+        exp_o, exp_log = expected(wit["shape"], "value")
+        got = "E" if o[0] == "E" else ((o[1], o[2]) if o[0] == "V" else ("X",) + tuple(o[1:]))
+        print("after a program with f as", k1, ":", wit["expr"], style, wit["kind"], "->", outcome.short(o), "expected", exp_o, "log", LOG)
+        bad = got != exp_o or bool(check_log(list(LOG), exp_log))
+        print("REPRODUCED" if bad else "not reproduced")
+        return 1 if bad else 0
     if wit.get("shape") in (None, "unbound") or "order" in wit:
         print("re-run ./check C14 to reproduce", wit)
         return 1
